@@ -36,10 +36,11 @@ def expectMask (r : Int) : Nat :=
   | .spacing => 64 | .l => 128 | .v => 256 | .t => 512 | .lv => 1024 | .lvt => 2048
   | .zwj => 4096 | .extpict => 8192 | .other => 0
 
-/-- the nine probe strings of C02 around code point `c` -/
+/-- the thirteen probe strings of C02 (the property's nine + four that separate CR/LF/Control, ZWJ/SpacingMark, V/LV) around code point `c` -/
 def probes (c : Int) : List (List Int) :=
   [[0x61, c], [c, 0x61], [c, 0x308], [0x1F468, 0x200D, c], [0x1F468, c, 0x200D, 0x1F469],
-   [0x1F1E9, c], [0x1100, c], [c, 0x1161], [c, 0x11A8]]
+   [0x1F1E9, c], [0x1100, c], [c, 0x1161], [c, 0x11A8],
+   [0x0D, c], [c, 0x0A], [0x1F468, c, 0x1F469], [0x1161, c]]
 
 def expectProbe (c : Int) : String :=
   ";".intercalate ((probes c).map fun p => showInts (split (p.map ref13Fast)))
